@@ -122,10 +122,10 @@ void set_env_q(int vc, mpq_class &q, mpq_class &r);
                 ' hx(q0.get_num()).c_str(), hx(q0.get_den()).c_str(), hx(r0.get_num()).c_str(), hx(r0.get_den()).c_str(), hx(res.get_num()).c_str(), hx(res.get_den()).c_str()); }\n')
         o.write('void set_env_z(int vc, mpz_class &a, mpz_class &b, mpz_class &c) { static const char *t[][3] = {' + ','.join('{"%s","%s","%s"}' % e for e in ENVZ) + '}; a.set_str(t[vc][0], 16); b.set_str(t[vc][1], 16); c.set_str(t[vc][2], 16); }\n')
         o.write('void set_env_q(int vc, mpq_class &q, mpq_class &r) { static const char *t[][4] = {' + ','.join('{"%s","%s","%s","%s"}' % (e[0][0], e[0][1], e[1][0], e[1][1]) for e in ENVQ) + '}; q.get_num().set_str(t[vc][0], 16); q.get_den().set_str(t[vc][1], 16); r.get_num().set_str(t[vc][2], 16); r.get_den().set_str(t[vc][3], 16); }\n')
-        o.write('void conv_section(void);\n')
+        o.write('void conv_section(void);\nvoid stream_section(const char *);\nvoid mpf_section(void);\n')
         o.write('int main(int argc, char **argv) { out = fopen(argv[1], "w"); int nvc = atoi(argv[2]); if (!out) return 3;\n  for (int vc = 0; vc < nvc; vc++) {\n')
         for ui in range(len(units)): o.write(f'    fprintf(out, "{{\\"e\\":\\"reset\\",\\"drv\\":\\"cxx\\",\\"x\\":%d,\\"seed\\":\\"0\\"}}\\n", vc * 1000 + {ui}); unit{ui}(vc);\n')
-        o.write('  }\n  fprintf(out, "{\\"e\\":\\"reset\\",\\"drv\\":\\"cxxconv\\",\\"x\\":0,\\"seed\\":\\"0\\"}\\n"); conv_section(); fclose(out); return 0; }\n')
+        o.write('  }\n  fprintf(out, "{\\"e\\":\\"reset\\",\\"drv\\":\\"cxxconv\\",\\"x\\":0,\\"seed\\":\\"0\\"}\\n"); conv_section();\n  if (argc > 3) { stream_section(argv[3]); mpf_section(); }\n  fclose(out); return 0; }\n')
     print(len(items), 'expressions in', len(units), 'units')
 
 main()
